@@ -22,6 +22,7 @@ git apply -R "$d/patch.diff"
 if (eval "$demo_cmd") > $wt/demo_without.log 2>&1; then demo_without=pass; else demo_without=FAIL; fi
 echo "   suite_with_mutation=$suite demo_with_mutation=$demo_with demo_without_mutation=$demo_without"
 res=""
+if [ "${CONFIRM_ONLY:-0}" = 1 ]; then set --; res=$(python3 -c "import json; print(' '.join(f'{k}:{v}' for k,v in json.load(open('$d/verif_result.json')).get('checks',{}).items()))" 2>/dev/null); fi
 # run the checks against the worktree with ONLY the mutation applied (same code path as /repo: VERIF_REPO)
 git checkout -q -- . ; git clean -fdq -e target; git apply "$d/patch.diff"
 cd /verif
